@@ -84,6 +84,12 @@ func init() {
 
 func init() {
 	families["C15"] = &rt.Family{Prop: "C15", Module: "MC_C15", PackSize: 8,
+		Unbounded: []rt.ApaCheck{
+			{Module: "IntSizeInd", Inv: "Holds", Expect: "NoError", What: "for ALL integer constants: the chosen type holds the admitted interval whenever a 64-bit type can"},
+			{Module: "IntSizeInd", Inv: "Narrowest", Expect: "NoError", What: "no narrower signed or unsigned type holds the admitted interval"},
+			{Module: "IntSizeInd", Inv: "SameAccept", Expect: "NoError", What: "for ALL constants and every int64 value: accepted with --min-sized-ints iff it satisfies every stated bound (the removed checks are implied by the type)"},
+			{Module: "IntSizeInd", Inv: "SameAcceptCrossed", Expect: "Error", What: "with the removal flags crossed (before fix 1f591fd) the accepted sets differ: the deviation switch is necessary"},
+		},
 		Rule: "units = integer schemas whose lower and upper side are each absent | minimum v | numeric exclusive v | minimum v + boolean exclusive, v = landmark+{-1,0,1} around 0 and the 8/16-bit (quick) plus 32/64-bit (thorough) signed and unsigned limits, each generated with --min-sized-ints off and on; documents = every landmark+{-2..1} inside int64. Both programs must give the reference verdict on every document (hence equal accepted sets) and the Go type read by reflection from the compiled program must be a narrowest type holding the admitted interval. distinct_nontrivial = distinct (unit, document) pairs with a definite reference verdict",
 		ExtraCfg: func(tier string) string { return "  Tier = \"" + tier + "\"\n" }}
 }
